@@ -16,10 +16,12 @@ ASSUMPTIONS = [
     "class key-state machine with an answering parent (which sync sends what), tied to the manager-level sync by the lock-step run",
     "no_loss_no_dup_partial assumes objects_mirror (C01: before the activation command the current set publishes what the class "
     "holds); that no key is both issued and suspended is proved for every history (fix bb96d233)",
-    "listener_accepts_partial excludes a revocation request that names a class which is still pending (no object sets yet): "
-    "there the listener answers with an error, nothing is stored (revoke_for_pending_class_refused); no panic",
-    "pinned_* theorems are counter-models of the tree before fixes bb96d233 / 43d7eca0 (the old add_issued_certificate and "
-    "process_child_revoke_key kept as separate definitions); they say nothing about the current tree",
+    "listener_accepts holds for every command of every reachable state since fix 239f0a59 (a revocation is executed only for a "
+    "key in use in the class the request names; such a class is past pending); the former exception - a request naming a pending "
+    "class made the listener fail - is kept as pinned_revoke_for_pending_class_listener_error",
+    "pinned_* theorems are counter-models of the tree before fixes bb96d233 / 43d7eca0 / 7be8c4c6 / 02d8de59 / 239f0a59 (the old "
+    "add_issued_certificate, process_child_revoke_key and process_child_resource_class_name_mapping kept as separate definitions, "
+    "Ca.pinnedProcess); they say nothing about the current tree",
     "HashMap iteration order is arbitrary: the model visits classes in insertion order, the driver compares per class",
 ]
 
@@ -41,7 +43,7 @@ MANIFEST = {
             "for every command including revocation requests under any class-name mapping, so no command of any history panics "
             "(process_emits_applicable, process_emits_in_domain, never_panics; since fix 43d7eca0 - the pinned tree's panic and its "
             "ignored revocation are kept as pinned_revoke_under_mapping_panics / pinned_revoke_mapped_ignored) and the listener accepts "
-            "them (listener_accepts_partial); aggregate and object sets mirror each other, keys of a class are distinct "
+            "them, so every command is refused or stored (listener_accepts, exec_refused_or_stored; unconditional since fix 239f0a59); aggregate and object sets mirror each other, keys of a class are distinct "
             "(mirror, keys_distinct); only the current set carries products (single_signer); the activation command moves every "
             "product and child certificate to the new key's set and empties the old one (activation_moves_everything, "
             "no_loss_no_dup_partial; pinned_activation_loses_stale_child is the loss on the pinned tree); the finish command leaves one set "
@@ -53,15 +55,14 @@ MANIFEST = {
             "apply and the listener model, state compared with CertAuth and CaObjects) on hand-written scenarios and seeded histories, "
             "and by the theorem predicates evaluated on the implementation's own state",
     "note": "Kernel-checked theorems are about the model. Still unproved: (1) no_loss_no_dup needs C01's objects_mirror as a hypothesis "
-            "(before activation the current set publishes what the class holds); (2) listener_accepts excludes revocation for a class "
-            "still pending (error, not stored); (3) roll completion: each roll step is proved to succeed from every reachable state, "
+            "(before activation the current set publishes what the class holds); (2) - (closed by fix 239f0a59: listener_accepts is "
+            "unconditional); (3) roll completion: each roll step is proved to succeed from every reachable state, "
             "but that the activatable hypothesis eventually holds (the parent certifies the new key with at least the resources of the "
             "child certificates; open requests get answered) and which sync sends which request is proved only on the class key-state "
             "machine (roll_completes_partial), not for the manager-level sync of two aggregates; (4) the proxy/signer exchange under "
-            "the TA is exercised by traces only. F-C02-1, F-C03-1, F-C04-1 are fixed (bb96d233, 43d7eca0): their scenarios stay in the "
-            "corpus and fail the check if the behaviour returns. Open: F-C04-2 (activation re-issues ROAs outside a shrunken new "
-            "certificate) and F-C04-3 (a mapping to a class the parent does not have may shadow the class a child is certified under: "
-            "its revocation is then ignored for ever). Real cryptography, manifests/CRLs and the wall clock are outside the model.",
+            "the TA is exercised by traces only. F-C02-1, F-C03-1, F-C04-1, F-C04-3, F-C02-2, F-C02-3, F-C03-3 are fixed (bb96d233, 43d7eca0, "
+            "02d8de59, 7be8c4c6, 239f0a59): their scenarios stay in the corpus and fail the check if the behaviour returns. Open: "
+            "F-C04-2 (activation re-issues ROAs outside a shrunken new certificate). Real cryptography, manifests/CRLs and the wall clock are outside the model.",
     "technique": "Lean 4 proof (invariants by induction over command histories, finite abstraction + decide, concrete counter-examples) "
                  "+ source translator (panic domains) + correspondence check",
 }
